@@ -569,7 +569,7 @@ def gen_sibling_wrappers(rng: random.Random) -> dict:
 
 def gen_api(rng: random.Random) -> dict:
     """Which spelling of the public API builds the program (all are equivalent by documentation)."""
-    return {"decorators": rng.random() < 0.3, "explicit_edges": rng.random() < 0.25, "wrap_async": rng.random() < 0.2, "siblings": rng.random() < 0.3, "rename_emit": rng.random() < 0.3}
+    return {"decorators": rng.random() < 0.3, "explicit_edges": rng.choice([True, "split"]) if rng.random() < 0.25 else False, "wrap_async": rng.random() < 0.2, "siblings": rng.random() < 0.3, "rename_emit": rng.random() < 0.3}
 
 
 def with_api(g: dict, api: dict | None) -> dict:
@@ -585,7 +585,7 @@ def with_api(g: dict, api: dict | None) -> dict:
         if api.get("decorators"):
             gr["decorators"] = True
         if api.get("explicit_edges"):
-            gr["explicit_edges"] = True
+            gr["explicit_edges"] = api["explicit_edges"]  # True, or "split": one declaration per value
         if api.get("siblings"):
             gr["siblings"] = True  # decoy graphs are derived from the same objects (parameter sweeps): they must not influence this one
         for nd in gr["nodes"]:
